@@ -9,6 +9,7 @@ import (
 
 	"golang.org/x/tools/go/packages"
 
+	"mpcverif/internal/dispatch"
 	"mpcverif/internal/load"
 )
 
@@ -335,4 +336,29 @@ func effectiveQ(info *types.Info, list []ast.Stmt) []ast.Stmt {
 		}
 	}
 	return out
+}
+
+// unwrapFunc follows thin wrappers: a function whose body is a single `return g(...)` with g a
+// package-level function of the same package stands for g (Parse(val) -> parse(val, 0)).
+func unwrapFunc(p *load.Program, rel string, fd *ast.FuncDecl) *ast.FuncDecl {
+	for i := 0; i < 3 && fd != nil && fd.Body != nil && len(fd.Body.List) == 1; i++ {
+		r, ok := fd.Body.List[0].(*ast.ReturnStmt)
+		if !ok || len(r.Results) != 1 {
+			break
+		}
+		call, ok := r.Results[0].(*ast.CallExpr)
+		if !ok {
+			break
+		}
+		id, ok := call.Fun.(*ast.Ident)
+		if !ok {
+			break
+		}
+		_, next := dispatch.FindFunc(p, rel, "", id.Name)
+		if next == nil {
+			break
+		}
+		fd = next
+	}
+	return fd
 }
